@@ -166,20 +166,56 @@ def reverse_rules(ctx, r6):
              ctx.construct(st, extra='existing => not satisfied'),
              'a task that already has an execution can be emitted again',
              ctx.loc(st))
-    succ_sets = set()
+    # a prerequisite is done when it succeeded or was skipped (a skipped
+    # task publishes publish-on-skip and must not block what requires it:
+    # F27); the same set decides readiness and where the data comes from
+    sd = ctx.sd
+    S = sd.consts
+    DONE = {S['SUCCESS'], S['SKIPPED']}
+    from mstatic.statedom import Frame
+    succ_sets = {}
+    INs, ks = sd.analyze(cfg, st, [('t_ex.state', sd.state_domain)],
+                         kill=lambda c: ())
     for x in own_nodes(st.node):
         if isinstance(x, ast.Call) and U.call_name(x) == 'add' and \
-                isinstance(x.func.value, ast.Name):
+                isinstance(x.func.value, ast.Name) and x.args and \
+                norm(x.args[0]) == 't_ex.name':
             cn = cfg.node_of(x)
-            if U.guard_match(cfg, cn, '__e.state == states.SUCCESS', True):
-                succ_sets.add(x.func.value.id)
+            succ_sets[x.func.value.id] = sd.values_at(INs, ks, cn,
+                                                      't_ex.state')
     okr = any(isinstance(x, ast.Return) and any(
         U.phas(x.value, 'not (set(self.wf_spec.get_task_requires(__s)) - '
                + v + ')') for v in succ_sets) for x in own_nodes(st.node))
-    r6.check(bool(succ_sets) and okr,
-             ctx.construct(st, extra='requires all SUCCESS'),
-             'requires are not compared against SUCCESS tasks only',
-             ctx.loc(st))
+    got = set().union(*succ_sets.values()) if succ_sets else set()
+    r6.check(bool(succ_sets) and okr and got == DONE,
+             ctx.construct(st, extra='requires all done'),
+             'a task is ready when its requires are all in %s; the property '
+             'needs exactly SUCCESS and SKIPPED (a prerequisite in any other '
+             'state is not done, a skipped one must not block its '
+             'dependents)' % sorted(map(str, got)), ctx.loc(st))
+    ug = prog.func(RWC + '._get_upstream_task_executions')
+    comps = [x for x in own_nodes(ug.node) if isinstance(x, ast.ListComp) and
+             len(x.generators) == 1 and x.generators[0].ifs]
+    data = None
+    if len(comps) == 1:
+        g = comps[0].generators[0]
+        el = norm(g.target)
+        data = set()
+        for stv in sd.ALL:
+            env = {'%s.state' % el: stv}
+            tr = sd.truth(sd.ev(g.ifs[0], env, Frame(ug.module)))
+            if tr is True:
+                data.add(stv)
+            elif tr is not False:
+                data = None
+                break
+    r6.check(data == DONE,
+             ctx.construct(ug, extra='data of the done prerequisites'),
+             'the prerequisites a task takes its data from are those in %s, '
+             'readiness counts %s: they have to be the same, SUCCESS and '
+             'SKIPPED' % (sorted(map(str, data)) if data is not None
+                          else 'an undecidable set', sorted(map(str, DONE))),
+             ctx.loc(ug))
 
 
 def reverse_graph(ctx, rule):
